@@ -1291,10 +1291,13 @@ static qtreetbl_obj_t *remove_obj(qtreetbl_t *tbl, qtreetbl_obj_t *obj,
             assert(minobj != NULL);
             free(obj->name);
             free(obj->data);
-            obj->name = qmemdup(minobj->name, minobj->namesize);
+            // take over name and data of min, no allocation needed.
+            obj->name = minobj->name;
             obj->namesize = minobj->namesize;
-            obj->data = qmemdup(minobj->data, minobj->datasize);
+            obj->data = minobj->data;
             obj->datasize = minobj->datasize;
+            minobj->name = NULL;
+            minobj->data = NULL;
             obj->right = remove_min(obj->right);
             tbl->num--;
         } else {
